@@ -3,7 +3,8 @@
    configuration, every behaviour of the modelled third-party code (RSA, serde), every
    adapter result and latency, every inbox of client frames and every timing. *)
 From Passage Require Import Lib.Bytes Codec.Desc Gen.PacketsGen Conn.Types Conn.Prog Conn.Sem1 Conn.Sem2
-  Conn.Monitor Conn.MonitorProofs Conn.Monitor2Proofs Conn.Order Conn.OrderProofs Conn.Checks Conn.Walk_C06.
+  Conn.Monitor Conn.MonitorProofs Conn.Monitor2Proofs Conn.Order Conn.OrderProofs Conn.Checks Conn.Walk_C06
+  Conn.TraceLib Conn.C06Corollaries.
 
 Theorem C06_walk : forall o cfg, safe (step_with chk_c06) m_init (listen o cfg).
 Proof. exact listen_c06_safe. Qed.
@@ -36,8 +37,215 @@ Theorem C06_every_event_checked_bytes : forall o cfg e segs pre ev post,
     (internal_at (q st) ev = true \/ exists q', delta (q st) ev = Some q' /\ chk_c06 st ev = true).
 Proof. intros o cfg e segs pre ev post H. eapply accepted_event_checked; [apply c06_accepts2 | exact H]. Qed.
 
+(* ======================================================================
+   In plain terms: corollaries of the accepted monitor (Conn/C06Corollaries.v), each for
+   every frame-level run (M1) and, suffix _bytes, every byte-level run (M2).
+   ====================================================================== *)
+
+(* the language of a connection: the recogniser, and its complete words spelled out *)
+Theorem C06_language_def : forall w,
+  lang_complete w = true <->
+  w = [PStatusResponse; PPong]
+  \/ exists (auth_req : bool) keep_alives tail,
+       w = PCookieRequestSession :: (if auth_req then [PCookieRequestAuth] else [])
+           ++ [PEncryptionRequest; PLoginSuccess] ++ repeat PKeepAlive keep_alives ++ tail
+       /\ (tail = [PDisconnect]
+           \/ exists (sa ss : bool), tail = (if sa then [PStoreCookieAuth] else []) ++ (if ss then [PStoreCookieSession] else [])
+                                   ++ [PTransfer]).
+Proof. exact lang_complete_spec. Qed.
+
+(* every prefix the recogniser accepts can be completed: it recognises the prefixes of that language *)
+Theorem C06_language_prefix_closed : forall w, lang_prefix w = true <-> exists w', lang_complete (w ++ w') = true.
+Proof. exact lang_prefix_spec. Qed.
+
+(* The packets sent by (any prefix of) any run, by name and in order, are a prefix of a word of the language:
+   Status Response, Pong | session Cookie Request, auth Cookie Request?, Encryption Request, Login Success,
+   Keep Alive*, (auth Store Cookie?, session Store Cookie?, Transfer | Disconnect) *)
+Theorem C06_sent_language : forall o cfg e ib pre post,
+  untime (run1 o cfg e ib) = pre ++ post -> lang_prefix (sent_names pre) = true.
+Proof. intros o cfg e ib. exact (sent_language_prefix _ _ (c06_accepts o cfg e ib)). Qed.
+Theorem C06_sent_language_bytes : forall o cfg e segs pre post,
+  untime (run2 o cfg e segs) = pre ++ post -> lang_prefix (sent_names pre) = true.
+Proof. intros o cfg e segs. exact (sent_language_prefix _ _ (c06_accepts2 o cfg e segs)). Qed.
+
+(* A run that ends successfully has sent a complete word: Status Response and Pong, or a login sequence
+   ending in Transfer *)
+Theorem C06_sent_complete : forall o cfg e ib pre post,
+  untime (run1 o cfg e ib) = pre ++ TEnd OOk :: post ->
+  lang_run 0 (sent_names pre) = Some 2 \/ lang_run 0 (sent_names pre) = Some 16.
+Proof. intros o cfg e ib. exact (sent_complete _ _ (c06_accepts o cfg e ib)). Qed.
+Theorem C06_sent_complete_bytes : forall o cfg e segs pre post,
+  untime (run2 o cfg e segs) = pre ++ TEnd OOk :: post ->
+  lang_run 0 (sent_names pre) = Some 2 \/ lang_run 0 (sent_names pre) = Some 16.
+Proof. intros o cfg e segs. exact (sent_complete _ _ (c06_accepts2 o cfg e segs)). Qed.
+
+(* The Status Response directly follows the status service's answer and carries exactly its JSON *)
+Theorem C06_status_exact : forall o cfg e ib pre vs post,
+  untime (run1 o cfg e ib) = pre ++ TSend status_cb_StatusResponsePacket vs :: post ->
+  exists pre1 cl host port proto json,
+    pre = pre1 ++ [TRes (CStatus cl host port proto) (RStatus json)] /\ vs = [VB json].
+Proof. intros o cfg e ib. exact (status_response_exact _ (c06_accepts o cfg e ib)). Qed.
+Theorem C06_status_exact_bytes : forall o cfg e segs pre vs post,
+  untime (run2 o cfg e segs) = pre ++ TSend status_cb_StatusResponsePacket vs :: post ->
+  exists pre1 cl host port proto json,
+    pre = pre1 ++ [TRes (CStatus cl host port proto) (RStatus json)] /\ vs = [VB json].
+Proof. intros o cfg e segs. exact (status_response_exact _ (c06_accepts2 o cfg e segs)). Qed.
+
+(* The Pong directly follows the Ping frame and echoes its payload *)
+Theorem C06_pong_exact : forall o cfg e ib pre vs post,
+  untime (run1 o cfg e ib) = pre ++ TSend status_cb_PongPacket vs :: post ->
+  exists pre1 b payload,
+    pre = pre1 ++ [TRecv 1 b] /\ dec_of status_sb_PingPacket b = Some [VZ payload] /\ vs = [VZ payload].
+Proof. intros o cfg e ib. exact (pong_exact _ (c06_accepts o cfg e ib)). Qed.
+Theorem C06_pong_exact_bytes : forall o cfg e segs pre vs post,
+  untime (run2 o cfg e segs) = pre ++ TSend status_cb_PongPacket vs :: post ->
+  exists pre1 b payload,
+    pre = pre1 ++ [TRecv 1 b] /\ dec_of status_sb_PingPacket b = Some [VZ payload] /\ vs = [VZ payload].
+Proof. intros o cfg e segs. exact (pong_exact _ (c06_accepts2 o cfg e segs)). Qed.
+
+(* After Pong, Transfer or Disconnect nothing is sent or done: at most the end marker follows *)
+Theorem C06_nothing_after_final : forall o cfg e ib pre p vs post,
+  untime (run1 o cfg e ib) = pre ++ TSend p vs :: post ->
+  is_pkt p status_cb_PongPacket = true \/ is_pkt p configuration_cb_TransferPacket = true
+    \/ is_pkt p configuration_cb_DisconnectPacket = true ->
+  post = [] \/ exists o, post = [TEnd o].
+Proof. intros o cfg e ib. exact (nothing_after_final _ _ (c06_accepts o cfg e ib)). Qed.
+Theorem C06_nothing_after_final_bytes : forall o cfg e segs pre p vs post,
+  untime (run2 o cfg e segs) = pre ++ TSend p vs :: post ->
+  is_pkt p status_cb_PongPacket = true \/ is_pkt p configuration_cb_TransferPacket = true
+    \/ is_pkt p configuration_cb_DisconnectPacket = true ->
+  post = [] \/ exists o, post = [TEnd o].
+Proof. intros o cfg e segs. exact (nothing_after_final _ _ (c06_accepts2 o cfg e segs)). Qed.
+
+(* No discovery, filter or selection call before Login Acknowledged (id 3) was read and, after it, the
+   Client Information *)
+Theorem C06_no_routing_before_info : forall o cfg e ib pre c post,
+  untime (run1 o cfg e ib) = pre ++ TCall c :: post ->
+  match c with CDiscover | CFilter _ _ _ _ _ _ _ | CSelect _ _ _ _ _ _ _ => true | _ => false end = true ->
+  exists pre1 b1 pre2 b2 pre3, pre = pre1 ++ TRecv 3 b1 :: pre2 ++ TRecv ci_id b2 :: pre3.
+Proof. intros o cfg e ib. exact (no_routing_before_info _ _ (c06_accepts o cfg e ib)). Qed.
+Theorem C06_no_routing_before_info_bytes : forall o cfg e segs pre c post,
+  untime (run2 o cfg e segs) = pre ++ TCall c :: post ->
+  match c with CDiscover | CFilter _ _ _ _ _ _ _ | CSelect _ _ _ _ _ _ _ => true | _ => false end = true ->
+  exists pre1 b1 pre2 b2 pre3, pre = pre1 ++ TRecv 3 b1 :: pre2 ++ TRecv ci_id b2 :: pre3.
+Proof. intros o cfg e segs. exact (no_routing_before_info _ _ (c06_accepts2 o cfg e segs)). Qed.
+
+(* Keep Alive, Store Cookie, Transfer and Disconnect are only sent after Login Success *)
+Theorem C06_conf_after_login_success : forall o cfg e ib pre p vs post,
+  untime (run1 o cfg e ib) = pre ++ TSend p vs :: post ->
+  is_pkt p configuration_cb_KeepAlivePacket || is_pkt p configuration_cb_StoreCookiePacket
+  || is_pkt p configuration_cb_TransferPacket || is_pkt p configuration_cb_DisconnectPacket = true ->
+  exists pre0 pL vsL rest, pre = pre0 ++ TSend pL vsL :: rest /\ is_pkt pL login_cb_LoginSuccessPacket = true.
+Proof. intros o cfg e ib. exact (conf_after_login_success _ _ (c06_accepts o cfg e ib)). Qed.
+Theorem C06_conf_after_login_success_bytes : forall o cfg e segs pre p vs post,
+  untime (run2 o cfg e segs) = pre ++ TSend p vs :: post ->
+  is_pkt p configuration_cb_KeepAlivePacket || is_pkt p configuration_cb_StoreCookiePacket
+  || is_pkt p configuration_cb_TransferPacket || is_pkt p configuration_cb_DisconnectPacket = true ->
+  exists pre0 pL vsL rest, pre = pre0 ++ TSend pL vsL :: rest /\ is_pkt pL login_cb_LoginSuccessPacket = true.
+Proof. intros o cfg e segs. exact (conf_after_login_success _ _ (c06_accepts2 o cfg e segs)). Qed.
+
+(* Login Success directly follows the switch to encryption, which directly follows the Encryption Response
+   frame (id 1) or, when the client was told to authenticate, the authentication call and its answer made right
+   after that frame (that the response is VALID - token and secret - is C01_login_success_guarded) *)
+Theorem C06_login_success_after_encryption_response : forall o cfg e ib pre vs post,
+  untime (run1 o cfg e ib) = pre ++ TSend login_cb_LoginSuccessPacket vs :: post ->
+  exists pre0 b mid ss,
+    pre = pre0 ++ TRecv 1 b :: mid ++ [TEnc ss]
+    /\ (mid = [] \/ exists cl host port proto n u secret pk cl' host' port' proto' n' u' secret' pk' r,
+                      mid = [TCall (CAuth cl host port proto n u secret pk);
+                             TRes (CAuth cl' host' port' proto' n' u' secret' pk') r]).
+Proof. intros o cfg e ib. intros pre vs post H. exact (login_success_after_encryption_response _ _ (c06_accepts o cfg e ib) _ _ _ _ H eq_refl). Qed.
+Theorem C06_login_success_after_encryption_response_bytes : forall o cfg e segs pre vs post,
+  untime (run2 o cfg e segs) = pre ++ TSend login_cb_LoginSuccessPacket vs :: post ->
+  exists pre0 b mid ss,
+    pre = pre0 ++ TRecv 1 b :: mid ++ [TEnc ss]
+    /\ (mid = [] \/ exists cl host port proto n u secret pk cl' host' port' proto' n' u' secret' pk' r,
+                      mid = [TCall (CAuth cl host port proto n u secret pk);
+                             TRes (CAuth cl' host' port' proto' n' u' secret' pk') r]).
+Proof. intros o cfg e segs. intros pre vs post H. exact (login_success_after_encryption_response _ _ (c06_accepts2 o cfg e segs) _ _ _ _ H eq_refl). Qed.
+
+(* In the handshake, status and login phases the handler waits for one packet id, determined by the last
+   thing that happened (nothing yet / the first frame: 0; Status Response sent: 1; a Cookie Request sent: 4;
+   Encryption Request sent: 1; Login Success sent: 3); any other frame ends the connection without a reply:
+   nothing follows but the unsuccessful end *)
+Theorem C06_wrong_packet_silent : forall o cfg e ib pre id b post x,
+  untime (run1 o cfg e ib) = pre ++ TRecv id b :: post ->
+  match rev pre with
+  | [] => Some 0
+  | [TRecv _ _] => Some 0
+  | TSend p _ :: _ =>
+      if is_pkt p status_cb_StatusResponsePacket then Some 1
+      else if is_pkt p login_cb_CookieRequestPacket then Some 4
+      else if is_pkt p login_cb_EncryptionRequestPacket then Some 1
+      else if is_pkt p login_cb_LoginSuccessPacket then Some 3
+      else None
+  | _ => None
+  end = Some x ->
+  id <> x ->
+  post = [] \/ exists o, post = [TEnd o] /\ o <> OOk.
+Proof. intros o cfg e ib. exact (wrong_packet_silent _ _ (c06_accepts o cfg e ib)). Qed.
+Theorem C06_wrong_packet_silent_bytes : forall o cfg e segs pre id b post x,
+  untime (run2 o cfg e segs) = pre ++ TRecv id b :: post ->
+  match rev pre with
+  | [] => Some 0
+  | [TRecv _ _] => Some 0
+  | TSend p _ :: _ =>
+      if is_pkt p status_cb_StatusResponsePacket then Some 1
+      else if is_pkt p login_cb_CookieRequestPacket then Some 4
+      else if is_pkt p login_cb_EncryptionRequestPacket then Some 1
+      else if is_pkt p login_cb_LoginSuccessPacket then Some 3
+      else None
+  | _ => None
+  end = Some x ->
+  id <> x ->
+  post = [] \/ exists o, post = [TEnd o] /\ o <> OOk.
+Proof. intros o cfg e segs. exact (wrong_packet_silent _ _ (c06_accepts2 o cfg e segs)). Qed.
+
+(* the same by automaton state (0 start, 1 handshake read, 12 Status Response sent, 21/23 Cookie Request
+   sent, 26 Encryption Request sent, 31 Login Success sent) *)
+Theorem C06_wrong_packet_silent_state : forall o cfg e ib pre st id b post x,
+  untime (run1 o cfg e ib) = pre ++ TRecv id b :: post -> run (step_with chk_c06) m_init pre = Some st ->
+  (if (q st =? 0) || (q st =? 1) then Some 0
+   else if (q st =? 12) || (q st =? 26) then Some 1
+   else if (q st =? 21) || (q st =? 23) then Some 4
+   else if q st =? 31 then Some 3 else None) = Some x ->
+  id <> x ->
+  post = [] \/ exists o, post = [TEnd o] /\ o <> OOk.
+Proof. intros o cfg e ib. exact (wrong_packet_silent_state _ _ (c06_accepts o cfg e ib)). Qed.
+Theorem C06_wrong_packet_silent_state_bytes : forall o cfg e segs pre st id b post x,
+  untime (run2 o cfg e segs) = pre ++ TRecv id b :: post -> run (step_with chk_c06) m_init pre = Some st ->
+  (if (q st =? 0) || (q st =? 1) then Some 0
+   else if (q st =? 12) || (q st =? 26) then Some 1
+   else if (q st =? 21) || (q st =? 23) then Some 4
+   else if q st =? 31 then Some 3 else None) = Some x ->
+  id <> x ->
+  post = [] \/ exists o, post = [TEnd o] /\ o <> OOk.
+Proof. intros o cfg e segs. exact (wrong_packet_silent_state _ _ (c06_accepts2 o cfg e segs)). Qed.
+
 Print Assumptions C06_walk.
 Print Assumptions C06_accepts.
 Print Assumptions C06_every_event_checked.
 Print Assumptions C06_accepts_bytes.
 Print Assumptions C06_every_event_checked_bytes.
+Print Assumptions C06_language_def.
+Print Assumptions C06_language_prefix_closed.
+Print Assumptions C06_sent_language.
+Print Assumptions C06_sent_language_bytes.
+Print Assumptions C06_sent_complete.
+Print Assumptions C06_sent_complete_bytes.
+Print Assumptions C06_status_exact.
+Print Assumptions C06_status_exact_bytes.
+Print Assumptions C06_pong_exact.
+Print Assumptions C06_pong_exact_bytes.
+Print Assumptions C06_nothing_after_final.
+Print Assumptions C06_nothing_after_final_bytes.
+Print Assumptions C06_no_routing_before_info.
+Print Assumptions C06_no_routing_before_info_bytes.
+Print Assumptions C06_conf_after_login_success.
+Print Assumptions C06_conf_after_login_success_bytes.
+Print Assumptions C06_login_success_after_encryption_response.
+Print Assumptions C06_login_success_after_encryption_response_bytes.
+Print Assumptions C06_wrong_packet_silent.
+Print Assumptions C06_wrong_packet_silent_bytes.
+Print Assumptions C06_wrong_packet_silent_state.
+Print Assumptions C06_wrong_packet_silent_state_bytes.
